@@ -151,6 +151,8 @@ type Net struct {
 	// NewLinkHook configures each new link (latency, capacity, faults).
 	NewLinkHook func(l *Link)
 	Fired       map[string]int
+	// LastData: when bytes last entered or left any socket (used to tell when traffic has ceased)
+	LastData time.Time
 }
 
 func newNet(w *World) *Net {
@@ -380,6 +382,7 @@ func (c *Conn) Write(b []byte) (int, error) {
 	}
 	// tap: the sender's view, before any fault
 	p.tapFeed(w, b)
+	c.n.LastData = time.Now()
 	total := 0
 	for len(b) > 0 {
 		for p.used() >= p.capacity && !p.rst && !p.discard && !c.closed && !deadlinePassed(c.wdl) {
@@ -536,6 +539,7 @@ func (c *Conn) Read(b []byte) (int, error) {
 				p.buf = nil
 			}
 			p.consumed += int64(n)
+			c.n.LastData = time.Now()
 			p.noteConsumed(c.n.w)
 			p.q.WakeAll() // a writer may be waiting for room
 			return n, nil
